@@ -1,4 +1,5 @@
 (* Proofs/Lro.v — lemmas about Model/Lro.v (C08). *)
+From Coq Require Import Permutation.
 From GV Require Import Base.Str Model.Lro.
 
 (* ------------------------------------------------------------------ small facts *)
@@ -51,6 +52,26 @@ Lemma lro_lookup_total : forall files key,
   known files key = true <-> exists f, In f files /\ In key (f_messages f).
 Proof.
   intros files key. unfold known, universe. rewrite mem_str_In, in_flat_map. reflexivity.
+Qed.
+
+(* nor does the ORDER in which the request lists the files: a file that follows the service's file counts like one that
+   precedes it (protoc lists a dependency imported only by a later file after the service's file) *)
+Lemma lro_lookup_order_independent : forall files files' key,
+  Permutation files files' -> known files key = known files' key.
+Proof.
+  intros files files' key P. apply Bool.eq_iff_eq_true. rewrite !lro_lookup_total. split.
+  - intros [f [Hf Hk]]. exists f. split; [now apply (Permutation_in f P) | exact Hk].
+  - intros [f [Hf Hk]]. exists f. split; [now apply (Permutation_in f (Permutation_sym P)) | exact Hk].
+Qed.
+
+Lemma decide_order_independent : forall files files' pkg m,
+  Permutation files files' -> decide files pkg m = decide files' pkg m.
+Proof.
+  intros files files' pkg m P. unfold decide, resolve_lro.
+  assert (K : forall k, known files k = known files' k) by (intro k; now apply lro_lookup_order_independent).
+  destruct (ends_with OPERATION_SUFFIX (m_output m)); [|reflexivity].
+  destruct (m_opinfo m) as [oi|]; [|reflexivity].
+  now rewrite !K.
 Qed.
 
 (* the import list of the file that declares the service plays no role *)
